@@ -71,7 +71,7 @@ func CheckSpatialIdsArrayOverlap(spatialIds1 []string, spatialIds2 []string) (bo
 		}
 		// 高度インデックスをオフセット変換のみ実行して自然数にする
 		// minAltitudeKey == maxAltitudeKeyになるため結果は片方のみ利用する
-		convertedFIndex, _, errAltConversion := transform.ConvertZToMinMaxAltitudekey(int64(f1), int64(zoom1), int64(zoom1), consts.ZOriginValue, consts.ZBaseOffsetForNegativeFIndex)
+		convertedFIndex, errAltConversion := offsetFIndex(int64(f1), int64(zoom1))
 		if convertedFIndex < 0 {
 			return false, errors.NewSpatialIdError(errors.InputValueErrorCode, fmt.Sprintf("input f-index %v is out of altitude range @spatialId1[%v] = %v", f1, indexSpatialId1, spatialId1))
 		}
@@ -90,7 +90,7 @@ func CheckSpatialIdsArrayOverlap(spatialIds1 []string, spatialIds2 []string) (bo
 		// 取り出した要素の比較
 		// 高度インデックスをオフセット変換のみ実行して自然数にする
 		// minAltitudeKey == maxAltitudeKeyになるため結果は片方のみ利用する
-		convertedFIndex2, _, errAltConversion := transform.ConvertZToMinMaxAltitudekey(int64(f2), int64(zoom2), int64(zoom2), consts.ZOriginValue, consts.ZBaseOffsetForNegativeFIndex)
+		convertedFIndex2, errAltConversion := offsetFIndex(int64(f2), int64(zoom2))
 		if convertedFIndex2 < 0 {
 			return false, errors.NewSpatialIdError(errors.InputValueErrorCode, fmt.Sprintf("input f-index %v is out of altitude range @spatialId2[%v] = %v", f2, indexSpatialId2, spatialId2))
 		}
@@ -109,6 +109,35 @@ func CheckSpatialIdsArrayOverlap(spatialIds1 []string, spatialIds2 []string) (bo
 	}
 
 	return false, nil
+}
+
+// offsetFIndex 高度インデックスのオフセット変換関数
+//
+// fインデックスにそのズームレベルでの高度オフセット(consts.ZBaseOffsetForNegativeFIndex[m]分のインデックス数)を加算して自然数にする。
+// ズームレベルが25以下の場合は transform.ConvertZToMinMaxAltitudekey によるオフセット変換と同じ結果となる。
+// ズームレベルが25より大きい(ボクセルの高さが1m未満の)場合、1m単位の高度変換では同じ1m内のインデックスが区別できないため、
+// インデックスの単位でオフセットを加算する。
+//
+// 引数：
+//
+//	f：fインデックス
+//	zoom：精度(ズームレベル)
+//
+// 戻り値：
+//
+//	オフセット変換後のインデックス(0以上2^zoom未満)
+//	fインデックスが高度範囲外の場合、エラーインスタンスを返却。
+func offsetFIndex(f int64, zoom int64) (int64, error) {
+	if zoom <= consts.ZOriginValue {
+		convertedFIndex, _, err := transform.ConvertZToMinMaxAltitudekey(f, zoom, zoom, consts.ZOriginValue, consts.ZBaseOffsetForNegativeFIndex)
+		return convertedFIndex, err
+	}
+	offset := int64(consts.ZBaseOffsetForNegativeFIndex) << (zoom - consts.ZOriginValue)
+	convertedFIndex := f + offset
+	if zoom > 62 || convertedFIndex < 0 || convertedFIndex >= offset*2 {
+		return 0, errors.NewSpatialIdError(errors.InputValueErrorCode, "output index does not exist with given outputZoom, zBaseExponent, and zBaseOffset")
+	}
+	return convertedFIndex, nil
 }
 
 // getSpatialIdAttrs 空間IDフォーマットチェック関数
